@@ -16,7 +16,8 @@ RULE = (
     "be applicable: permute lists; rename channels/samples/parameters; add a zero-yield sample; add a "
     "systematic whose variations equal the nominal; split a channel's bins into two channels; split a "
     "sample into two carrying identical modifiers (staterror in quadrature); rescale the signal by k. "
-    "Metamorphic oracles: 2NLL at the optimum (minus log 2pi per added unit-Gaussian constraint), test "
+    "Metamorphic oracles: the two likelihoods agree (1e-7 relative) at each side's fitted points mapped into the "
+    "other side through the rewrite's parameter correspondence (optimiser-free); 2NLL at the optimum (minus log 2pi per added unit-Gaussian constraint), test "
     "statistic, observed and 5 expected CLs unchanged; under rescaling CLs'(mu/k) = CLs(mu) (and limit' = "
     "limit/k in the thorough tier); a second backend (64-bit) and minuit at tight tolerance agree. "
     "Non-trivial: >=2 nuisance-parameter types and a rewrite that changes the spec; distinct by (shape "
@@ -101,6 +102,8 @@ def apply_rewrite(state, step):
         for p in spec["parameters"]:
             p["name"] = pmap.get(p["name"], p["name"])
         state["main"] = {cmap[k]: v for k, v in main.items()}
+        if "origin" in state:
+            state["origin"] = {pmap.get(n, n): o for n, o in state["origin"].items()}
         return "rename"
     if op == "zero_sample":
         nb = len(ch["samples"][0]["data"])
@@ -118,6 +121,8 @@ def apply_rewrite(state, step):
             s["modifiers"].append({"name": name, "type": "histosys",
                                    "data": {"lo_data": list(s["data"]), "hi_data": list(s["data"])}})
         state["added"] += 1
+        if "origin" in state:
+            state["origin"][name] = None
         return "null_systematic"
     if op == "split_channel":
         nb = len(ch["samples"][0]["data"])
@@ -146,6 +151,20 @@ def apply_rewrite(state, step):
         other = {m["name"] for cc in chans if cc is not ch for s in cc["samples"] for m in s["modifiers"]}
         if sf & other:
             return None
+        if "origin" in state:
+            for s_ in ch["samples"]:
+                for m in s_["modifiers"]:
+                    if m["type"] in ("shapesys", "staterror"):
+                        new0, new1 = f"{m['name']}_p0", f"{m['name']}_p1"
+                    elif m["type"] == "shapefactor":
+                        new0, new1 = f"{m['name']}_{ch['name']}_p0", f"{m['name']}_{ch['name']}_p1"
+                    else:
+                        continue
+                    o = state["origin"].get(m["name"])
+                    if o is not None:
+                        state["origin"][new0] = (o[0], o[1])
+                        state["origin"][new1] = (o[0], o[1] + cut)
+                        state["origin"].pop(m["name"], None)
         idx = chans.index(ch)
         chans[idx:idx + 1] = parts
         data = main.pop(ch["name"])
@@ -233,8 +252,18 @@ def best_infer(pyhf, spec, main, mu):
     return min(runs, key=lambda r: sum(r[0]["objs"]) + r[0]["nll2"])
 
 
-def compare(ctx, sig, a, b, rel, nll_shift=0.0, detail=None):
+def compare(ctx, sig, a, b, rel, nll_shift=0.0, detail=None, same_function=None):
+    """same_function: None (not established) or True (the two likelihood functions were shown to agree at both
+    sides' fitted points).  With it, objectives of corresponding fits that differ mean that one optimiser run
+    stopped short of a point the other one reached: an optimiser limitation (C05), not a statement about the
+    rewrite - such cases are counted, not reported."""
     detail = detail or {}
+    if same_function:
+        gaps = [abs(x - (y - nll_shift)) for x, y in zip(a["objs"], b["objs"])]
+        if max(gaps) > 1e-4:
+            ctx.excluded("rewrite comparison skipped: likelihoods agree at both sides' fitted points but one side's "
+                         "fit stopped short of the other's optimum (optimiser limitation recorded under C05)")
+            return
     ctx.close("nll2", b["nll2"] - nll_shift, a["nll2"], 1e-4 + 1e-8 * abs(a["nll2"]), f"{sig}/maximised_likelihood", **detail)
     ctx.close("q", b["q"], a["q"], 2e-4 + 1e-6 * abs(a["q"]), f"{sig}/test_statistic", **detail)
     for k in ("cls", "clsb", "clb"):
@@ -243,12 +272,65 @@ def compare(ctx, sig, a, b, rel, nll_shift=0.0, detail=None):
         ctx.close("band", y, x, rel * abs(x) + 1e-12, f"{sig}/expected_band", index=i, **detail)
 
 
+def cross_evaluate(ctx, pyhf, sig, base, model0, data0, new, model1, data1, origin, scale, shift):
+    """The rewrite maps parameters by name (origin: new name -> (base name, offset) or None for an added null
+    systematic; the POI scales with 1/scale).  The two likelihoods must agree at the three data-fit points of
+    either side mapped into the other - an optimiser-free statement.  Returns True if that was established."""
+    c0, c1 = model0.config, model1.config
+    if set(c1.par_order) != set(origin) or any(o is not None and o[0] not in c0.par_order for o in origin.values()):
+        ctx.count("rewrite_parameter_map_incomplete", 1)
+        return None
+    init1 = [float(v) for v in c1.suggested_init()]
+    tl = pyhf.tensorlib
+
+    def fwd(vec0):
+        out = list(init1)
+        for name in c1.par_order:
+            sl1, o = c1.par_slice(name), origin[name]
+            if o is None:
+                continue
+            s0 = c0.par_slice(o[0])
+            for j in range(sl1.stop - sl1.start):
+                out[sl1.start + j] = vec0[s0.start + o[1] + j] / (scale if name == "mu" else 1.0)
+        return out
+
+    def bwd(vec1):
+        out = [float(v) for v in c0.suggested_init()]
+        for name in c1.par_order:
+            sl1, o = c1.par_slice(name), origin[name]
+            if o is None:
+                continue
+            s0 = c0.par_slice(o[0])
+            for j in range(sl1.stop - sl1.start):
+                out[s0.start + o[1] + j] = vec1[sl1.start + j] * (scale if name == "mu" else 1.0)
+        return out
+
+    def obj(model, data, vec):
+        return float(backends.tonp(pyhf.infer.mle.twice_nll(tl.astensor(vec), tl.astensor(data), model)).reshape(-1)[0])
+
+    ok = True
+    for vec0, o0 in zip(base["pars"], base["objs"][:3]):
+        v1 = obj(model1, data1, fwd(vec0)) - shift
+        if not ctx.close("likelihood_at_mapped_point", v1, o0, 1e-7 * (1 + abs(o0)),
+                         f"{sig}/likelihood_differs_at_mapped_point/original_to_rewritten"):
+            ok = False
+    for vec1, o1 in zip(new["pars"], new["objs"][:3]):
+        added_free = any(origin[n] is None and abs(vec1[c1.par_slice(n).start]) > 1e-6 for n in c1.par_order)
+        if added_free:
+            continue  # an added null systematic away from 0 has no counterpart in the original model
+        v0 = obj(model0, data0, bwd(vec1))
+        if not ctx.close("likelihood_at_mapped_point", v0, o1 - shift, 1e-7 * (1 + abs(o1)),
+                         f"{sig}/likelihood_differs_at_mapped_point/rewritten_to_original"):
+            ok = False
+    return ok
+
+
 def run_case(case, ctx):
     import pyhf
 
     spec = copy.deepcopy(case["spec"])
     spec.setdefault("parameters", [])
-    state = {"spec": spec, "main": copy.deepcopy(case["main"]), "scale": 1.0, "added": 0}
+    state = {"spec": spec, "main": copy.deepcopy(case["main"]), "scale": 1.0, "added": 0, "origin": None}
     tight = pyhf.optimize.scipy_optimizer(tolerance=1e-10)
     tl = backends.use("numpy", optimizer=tight)
     mu = case["mu"]
@@ -259,6 +341,7 @@ def run_case(case, ctx):
             ctx.discard("FailedMinimization on the original model")
         if not (base["band"][2] < 0.9) or base["cls"] < 1e-12:
             ctx.discard("model not sensitive at the tested mu (median expected CLs >= 0.9) or CLs underflow")
+        state["origin"] = {n: (n, 0) for n in model0.config.par_order}
         applied = []
         for step in case["steps"]:
             trial = copy.deepcopy(state)
@@ -271,7 +354,7 @@ def run_case(case, ctx):
         if applied:
             k = state["scale"]
             try:
-                new, _, _ = best_infer(pyhf, state["spec"], state["main"], mu / k)
+                new, model1, data1 = best_infer(pyhf, state["spec"], state["main"], mu / k)
             except pyhf.exceptions.FailedMinimization:
                 ctx.discard("FailedMinimization on the rewritten model")
             except Exception as exc:  # noqa: BLE001
@@ -286,7 +369,11 @@ def run_case(case, ctx):
                 return
             shift = state["added"] * math.log(2 * math.pi)
             sigs = sorted(set(applied))
-            compare(ctx, f"C15/rewrite/{'+'.join(sigs)}", base, new, 5e-4, nll_shift=shift, detail={"rewrites": applied})
+            backends.use("numpy", optimizer=tight)
+            same = cross_evaluate(ctx, pyhf, f"C15/rewrite/{'+'.join(sigs)}", base, model0, data0, new, model1, data1,
+                                  state["origin"], k, shift)
+            compare(ctx, f"C15/rewrite/{'+'.join(sigs)}", base, new, 5e-4, nll_shift=shift, detail={"rewrites": applied},
+                    same_function=same)
         # second configuration: other backend (64-bit) or minuit at tight tolerance
         second = case["second"]
         if second:
